@@ -120,5 +120,5 @@ pub fn get_nonspace_bits(data: &[u8; 64]) -> u64 {
 
 /// The block primitives of the unchecked container skipper (`src/parser.rs`).
 pub use crate::parser::verif_block::{
-    container_block, escaped as escaped_bits, skip_string, string_bits,
+    container_block, escaped as escaped_bits, skip_space_trace, skip_string, string_bits,
 };
